@@ -332,6 +332,7 @@ def _fail_pass(ctx, R, NR, b):
     S = nfa_state(cur)
     fail_chain = Phi(F(S, "fail", NS), F(nfa_state(ANY), "fail", NS))
     child_write = None
+    deferred_fail_value = None
     for (bi, si, st), val in zip(fwrites, vals):
         tgt = root.place(st["lhs"])
         if m(F(nfa_state(child), "fail", NS), tgt):
@@ -340,9 +341,7 @@ def _fail_pass(ctx, R, NR, b):
             if leftmost:
                 opts.append(K(1))
             ok = m(Phi(*opts, req=[0, 1] + ([2] if leftmost else [])), val)
-            ctx.check(ok, "NFA-FAIL", b, "fail-value:" + tag, b.loc(bi, si),
-                      "a child's fail link must be child_id(f, label) for f on the parent's fail chain, or ROOT%s; found %s"
-                      % (", or DEAD" if leftmost else "", show(val)), show(val))
+            deferred_fail_value = (ok, bi, si, val)
             # the fail chain: first argument of child_id
             for x in members(val):
                 if x[0] == "payload" and x[1][0] == "call":
@@ -378,6 +377,23 @@ def _fail_pass(ctx, R, NR, b):
                     "unexpected target of a fail-link write: %s" % show(tgt))
     ctx.check(child_write is not None, "NFA-FAIL", b, "child-fail-written:" + tag, b.span,
               "every visited child must get a fail link")
+    table_ok = False
+    if child_write is not None:
+        try:
+            table_ok = bool(_fail_table(NR, b, fv, leftmost, esite, child_write))
+        except Exception:
+            table_ok = False
+        ctx.check(table_ok, "NFA-FAIL", b, "decision-table:" + tag, b.loc(*child_write),
+                  "evaluated under assumptions on (cursor == DEAD, child exists, next == DEAD, cursor == ROOT, next == ROOT) the value stored "
+                  "as a child's fail link must be: %sthe child of the cursor when it exists; %sROOT when cursor and next are both ROOT; "
+                  "and otherwise the walk must advance to states[cursor].fail without storing"
+                  % ("DEAD when the parent's link is DEAD; " if leftmost else "", "DEAD when next is DEAD; " if leftmost else ""))
+    if deferred_fail_value is not None:
+        ok_, bi_, si_, val_ = deferred_fail_value
+        # the syntactic shape of the stored value, or the decision table that evaluates it row by row
+        ctx.check(ok_ or table_ok, "NFA-FAIL", b, "fail-value:" + tag, b.loc(bi_, si_),
+                  "a child's fail link must be child_id(f, label) for f on the parent's fail chain, or ROOT%s; found %s"
+                  % (", or DEAD" if leftmost else "", show(val_)), show(val_))
     if leftmost:
         ctx.check(any(m(F(S, "fail", NS), root.place(st["lhs"])) for (bi, si, st) in fwrites), "NFA-LM", b,
                   "output-state-dead-present", b.span, "a state with an output must fail to DEAD")
@@ -413,7 +429,7 @@ def _fail_pass(ctx, R, NR, b):
                   "for every child the search for its fail link must start again at the parent's fail link (the walk variable is "
                   "advanced by the walk and must be re-initialised inside the edge loop)")
     # guards of the constant results (ROOT only when the chain reached ROOT; DEAD only on a DEAD test)
-    _const_result_guards(ctx, NR, b, fv, leftmost, tag)
+    _const_result_guards(ctx, NR, b, fv, leftmost, tag, table_ok)
     # the chain walk must advance: fail_id := states[fail_id].fail inside the inner loop
     adv = False
     for vw in fv.views:
@@ -425,7 +441,114 @@ def _fail_pass(ctx, R, NR, b):
     ctx.check(adv, "NFA-FAIL", b, "chain-advances:" + tag, b.span, "the fail-chain walk must advance to states[fail_id].fail")
 
 
-def _const_result_guards(ctx, NR, b, fv, leftmost, tag):
+def _fail_table(NR, b, fv, leftmost, esite, child_write):
+    """Decision table of the per-child fail computation, evaluated on the MIR under assumptions on the atomic conditions
+         CD: cursor == DEAD   C: child_id(cursor, label) is Some   ND: next == DEAD   CR: cursor == ROOT   NR: next == ROOT
+       (cursor = the walk variable, starting at the parent's fail link; next = states[cursor].fail)
+       leftmost:  CD -> DEAD | C -> that child | ND -> DEAD | CR & NR -> ROOT | otherwise cursor := next, retry
+       standard:              C -> that child |            | CR & NR -> ROOT | otherwise cursor := next, retry
+    The value stored into the child's fail link is evaluated per row (values_under, constants refined by the assumed equalities),
+    so `break next` under the guard `next == DEAD` is the same as `break DEAD`.  True iff every row holds."""
+    root = fv.root
+    NS = NR.NS
+    wbi, wsi = child_write
+    st = b.blocks[wbi]["stmts"][wsi]
+    if st["rv"]["k"] != "use":
+        return False
+    vop = st["rv"]["op"]
+    sws = switches_on(root, lambda d: d[0] == "discr" and d[1][0] == "call" and d[1][3] == esite)
+    if len(sws) != 1:
+        return False
+    head = opt_arms(sws[0][1])[0]
+
+    def is_cur_fail(y):
+        return y[0] == "field" and y[3] == "fail" and y[2] == NS and y[1][0] == "elem" and y[1][2][0] == "elem" and y[1][2][1][0] == "var"
+
+    def cursor(x):
+        ms = [y for y in members(x) if y[0] != "loop"]
+        return bool(ms) and all(y[0] == "field" and y[3] == "fail" and y[2] == NS for y in ms) and any(is_cur_fail(y) for y in ms)
+
+    def nxt(x):
+        return x[0] == "field" and x[3] == "fail" and x[2] == NS and x[1][0] == "elem" and not is_cur_fail(x) and \
+            (cursor(x[1][2]) or x[1][2][0] == "loop" or (x[1][2][0] == "phi" and any(is_cur_fail(y) for y in x[1][2][1])))
+
+    def eq(kind, c):
+        def f(t):
+            if t[0] != "bin" or t[1] != "Eq":
+                return False
+            for a_, b_ in ((t[2], t[3]), (t[3], t[2])):
+                if is_const(a_, c) and kind(b_):
+                    return True
+            return False
+        return f
+    cids = [(bi, tj) for vw, bi, c, tj in fv.calls(lambda c: c.name == "child_id") if vw is root]
+    if not cids:
+        return False
+    csites = {(b.path, bi) for bi, _ in cids}
+    is_child = lambda t: t[0] == "call" and t[3] in csites
+    if not all(cursor(root.op(tj["args"][1])) for _, tj in cids):
+        return False
+    from .search import ttj_state_local
+    wl = ttj_state_local(b, cids[0][1])
+    adv = {bi for bi, si, s_ in b.stmts() if s_["k"] == "assign" and not s_["lhs"]["proj"] and s_["lhs"]["local"] == wl and b.in_cycle(bi)
+           and nxt(pnorm(root.T.rvalue(s_["rv"])))} if wl is not None else set()
+    pull = esite[1]
+    ROOT, DEAD = ("const", 0, "u32", None), ("const", 1, "u32", None)
+
+    def row(CD, C, ND, CR, NR_):
+        atoms = []
+        eqs = []
+        if CD is not None:
+            atoms.append((eq(cursor, 1), CD))
+        if ND is not None:
+            atoms.append((eq(nxt, 1), ND))
+            if ND:
+                eqs.append((nxt, DEAD))
+        if CR is not None:
+            atoms.append((eq(cursor, 0), CR))
+        if NR_ is not None:
+            atoms.append((eq(nxt, 0), NR_))
+            if NR_:
+                eqs.append((nxt, ROOT))
+        some = [(is_child, C)] if C is not None else []
+        vis = cond.explore(root, [head], atoms, stop=[wbi, pull], some_atoms=some)
+        if vis is None:
+            return None, None
+        vals = None
+        if wbi in vis:
+            ex = cond.Explorer(root, atoms, some, eqs)
+            vals = {pnorm(ex.value_of(t)) for t in cond.values_under(root, [head], atoms, vop, site_bb=wbi, some_atoms=some)}
+        return vis, vals
+
+    def only(vals, pred):
+        return bool(vals) and all(all(pred(y) for y in members(x)) for x in vals)
+    is_dead = lambda y: is_const(y, 1)
+    is_root = lambda y: is_const(y, 0)
+    is_chld = lambda y: y[0] == "payload" and is_child(y[1])
+    if leftmost:
+        vis, vals = row(True, None, None, None, None)
+        if vis is None or not only(vals, is_dead) or (vis & adv):
+            return False
+    cd = False if leftmost else None
+    vis, vals = row(cd, True, None, None, None)
+    if vis is None or not only(vals, is_chld):
+        return False
+    if leftmost:
+        vis, vals = row(False, False, True, None, None)
+        if vis is None or not only(vals, is_dead):
+            return False
+    nd = False if leftmost else None
+    vis, vals = row(cd, False, nd, True, True)
+    if vis is None or not only(vals, is_root):
+        return False
+    for cr, nr in ((True, False), (False, True), (False, False)):
+        vis, vals = row(cd, False, nd, cr, nr)
+        if vis is None or wbi in vis or not (vis & adv):
+            return False
+    return True
+
+
+def _const_result_guards(ctx, NR, b, fv, leftmost, tag, table_ok=False):
     """`break ROOT` only when the state just tried (the argument of child_id) is ROOT itself, i.e. after
     ROOT's own edge has been tried; `DEAD` results only under an `== DEAD` test."""
     root = fv.root
@@ -443,14 +566,14 @@ def _const_result_guards(ctx, NR, b, fv, leftmost, tag):
                 sws = [(sbi, stj, d) for sbi, stj, d in sws
                        if any(core.same(d[3] if is_const(d[2], 0) else d[2], t) for t in tried)]
             g = any(b.edge_guards((sbi, bool_arms(stj)[0]), bi) for sbi, stj, d in sws)
-            ctx.check(g, "NFA-FAIL" if which == 0 else "NFA-LM", b, "%s-result-guarded:%s" % ("root" if which == 0 else "dead", tag),
+            ctx.check(g or table_ok, "NFA-FAIL" if which == 0 else "NFA-LM", b, "%s-result-guarded:%s" % ("root" if which == 0 else "dead", tag),
                       b.loc(bi, si), ("a ROOT fail link may be produced only after ROOT's own edge was tried: guard `fail_id == ROOT` on the "
                                       "state passed to child_id") if which == 0 else
                       "a constant DEAD fail link may be produced only under an `== DEAD` test")
     if leftmost:
         # DEAD propagation: parent's fail == DEAD  => child DEAD ; chain hits DEAD => DEAD
         sws = switches_on(root, lambda d: d[0] == "bin" and d[1] == "Eq" and (is_const(d[2], 1) or is_const(d[3], 1)))
-        ctx.check(len(sws) >= 2, "NFA-LM", b, "dead-propagation", b.span,
+        ctx.check(len(sws) >= 2 or table_ok, "NFA-LM", b, "dead-propagation", b.span,
                   "leftmost fail construction needs both DEAD tests (parent's fail link; next link on the chain); found %d" % len(sws))
 
 
